@@ -101,17 +101,20 @@ func NewFloatFromString(typ *types.FloatType, s string) (*Float, error) {
 				// pad with leading zeroes (e.g. for case like `0xL01`)
 				hex = strings.Repeat("0", maxHexLen-len(hex)) + hex
 			}
-			part1 := hex[:maxHexLen/2]
-			part2 := hex[maxHexLen/2:]
-			a, err := strconv.ParseUint(part1, 16, 64)
+			// Note, LLVM writes the low 64 bits of the 128-bit pattern first,
+			// followed by the high 64 bits (sign, exponent and the most significant
+			// bits of the significand); e.g. 1.0 is 0xL00000000000000003FFF000000000000.
+			lowPart := hex[:maxHexLen/2]
+			highPart := hex[maxHexLen/2:]
+			low, err := strconv.ParseUint(lowPart, 16, 64)
 			if err != nil {
 				return nil, errors.WithStack(err)
 			}
-			b, err := strconv.ParseUint(part2, 16, 64)
+			high, err := strconv.ParseUint(highPart, 16, 64)
 			if err != nil {
 				return nil, errors.WithStack(err)
 			}
-			f := binary128.NewFromBits(a, b)
+			f := binary128.NewFromBits(high, low)
 			x, nan := f.Big()
 			return &Float{Typ: typ, X: x, NaN: nan}, nil
 		// ppc_fp128 (PowerPC double-double arithmetic)
@@ -404,19 +407,20 @@ func (c *Float) Ident() string {
 	case types.FloatKindFP128:
 		// always represent fp128 in hexadecimal floating-point notation.
 		const hexPrefix = 'L'
+		// Note, the low 64 bits are written first, followed by the high 64 bits.
 		if c.NaN {
-			a, b := binary128.NaN.Bits()
+			high, low := binary128.NaN.Bits()
 			if c.X != nil && c.X.Signbit() {
-				a, b = binary128.NegNaN.Bits()
+				high, low = binary128.NegNaN.Bits()
 			}
-			return fmt.Sprintf("0x%c%016X%016X", hexPrefix, a, b)
+			return fmt.Sprintf("0x%c%016X%016X", hexPrefix, low, high)
 		}
 		f, acc := binary128.NewFromBig(c.X)
 		if acc != big.Exact {
 			log.Printf("unable to represent floating-point constant %v of type %v exactly; please submit a bug report to llir/llvm with this error message", c.X, c.Typ)
 		}
-		a, b := f.Bits()
-		return fmt.Sprintf("0x%c%016X%016X", hexPrefix, a, b)
+		high, low := f.Bits()
+		return fmt.Sprintf("0x%c%016X%016X", hexPrefix, low, high)
 	// ppc_fp128 (PowerPC double-double arithmetic)
 	case types.FloatKindPPC_FP128:
 		// always represent ppc_fp128 in hexadecimal floating-point notation.
